@@ -47,8 +47,8 @@ CLAIMS = {
          "(C01_accept_sound: whatever compile accepts is derivable from start : expr EOF, all tokens consumed); every derivable token list has each kind "
          "of bracket balanced, the brackets properly nested (a well-nested word over the three bracket kinds) and ends in a closing token (C01_accepted_shape, mutual induction over the derivation), so unbalanced, dangling or empty texts are "
          "never accepted. The relation is inhabited by everything C04's round trip covers (C01_trees_derivable). PARTIAL because completeness against the whole grammar "
-         "is not proved (C04 proves that the rendering of every surface tree - operators, postfix forms, calls, collection, message and scalar literals - is accepted with the right tree; macro calls included; only trailing "
-         "commas are outside it) and the positions of syntax errors are ANTLR's own (macro-error positions are the model's pos_for, in character columns, compared per case). "
+         "is not proved (C04 proves that the rendering of every surface tree - operators, postfix forms, calls, collection, message and scalar literals - is accepted with the right tree; macro calls, trailing commas and leading dots "
+         "included) and the positions of syntax errors are ANTLR's own (macro-error positions are the model's pos_for, in character columns, compared per case). "
          "The tie to the real ANTLR parser is the correspondence run: accept/reject AND the resulting tree are compared on all "
          "token strings up to length 4 over a 16-token alphabet (and 5 more alphabets up to length 3), random characters/tokens, generated "
          "valid programs and their mutations; panics, empty error lists, empty error texts and out-of-source positions (0:0 included) are failing inputs; "
@@ -61,7 +61,7 @@ CLAIMS = {
          "then each operator level; equal levels associate to the left, logical chains build the balanced tree with the operands in source order, parentheses group, arguments, "
          "elements and entries keep their order; and from SOURCE TEXT: compile(text(render t)) = tree, where text writes each token followed by a space (the lexer model is proved to "
          "read such text back token for token, numbers included). Also proved: the balanced-tree leaf order for every chain length, prefix-run parity, macros expand around receiver "
-         "and arguments. String and bytes literal tokens are leaves of the trees too (any token whose decoding is known), and one-quote literals also in the source-text theorem. Message literals (dotted names, optional leading dot, fields in order) are trees of the theorem as well. Macro calls are trees of the theorem too: the tree of a call node is the macro expander applied to the receiver's and arguments' trees (C04_macro_trees gives the comprehension for each of all / exists / exists_one / map / filter / has; only a plain name is accepted as the iteration variable), so macros nest freely through receivers, bodies and operators. Outside the theorem: trailing commas, which the run compares per case (and what a double token denotes is C13's). Tied to the code per case: the run checks on "
+         "and arguments. String and bytes literal tokens are leaves of the trees too (any token whose decoding is known), and one-quote literals also in the source-text theorem. Message literals (dotted names, optional leading dot, fields in order) are trees of the theorem as well. Macro calls are trees of the theorem too: the tree of a call node is the macro expander applied to the receiver's and arguments' trees (C04_macro_trees gives the comprehension for each of all / exists / exists_one / map / filter / has; only a plain name is accepted as the iteration variable), so macros nest freely through receivers, bodies and operators. The optional trailing comma of list, map and message literals ([,] and {,} included), identifiers and global calls with a leading dot, and selection of back-quoted fields are trees of the theorem as well (a back-quoted identifier is proved to lex as one token). Outside the theorem: back-quoted field names inside message literals, which the run compares per case (and what a double token denotes is C13's). Tied to the code per case: the run checks on "
          "every tree of the theorem's domain (all trees with <= 2 operators in both renderings, random deeper ones, chains to 24, prefix runs to 7, mixed left-associative chains) that "
          "the real parser's AST is the tree's AST and that the model's lexer turns the source text into exactly the rendering the theorem is about; all other trees ("
          "nested macros, chains 2-64) are compared between the real parser, the model's parser and the expected tree."),
